@@ -202,6 +202,51 @@ def c13(chk):
                 for p, _ in ds:
                     if str(p) in listed and str(p) in peers_tick[i].strip("[]").split(","):
                         pass  # may have been lost and re-established within the tick; not decidable here
+        # rotation and backoff restated on the implementation's own observations: after k consecutive
+        # failed attempts (the peer did not become listed) the next attempt uses address k mod n and comes
+        # no sooner than min(max, k*step) after the tick that noticed the k-th failure
+        cfg = dict(x.split("=") for x in mc.split("|")[0].split()[1:])
+        stepb, maxb, P = int(cfg["step"]), int(cfg["maxb"]), int(cfg["P"])
+        addrs = {int(e.split(":")[0]): [a for a in e.split(":")[2].split(",") if a] for e in meta["known"]}
+        fails, last_dial = {}, {}
+        # scripted availability: up[j] at the instant of tick i (changes happen half a period earlier)
+        upnow = {}
+        changes = {}
+        for e in mc.split("|")[2].split():
+            at, j, st = e.split(":")
+            changes.setdefault(int(at), []).append((int(j), st == "up"))
+        def is_up(j, t_ms):
+            st = True
+            for at in sorted(changes):
+                if at <= t_ms:
+                    for jj, u in changes[at]:
+                        if jj == j:
+                            st = u
+            return st
+        def norm(pt):
+            pt = int(pt)
+            return str(91 + pt) if pt < 100 else None
+        for i, ds in enumerate(per_tick):
+            for p, port in ds:
+                k = fails.get(p, 0)
+                want = addrs[p][k % len(addrs[p])] if addrs.get(p) else None
+                got = norm(port) or next((str(j if j == p else 200 + j) for prt, j in ports.items() if int(prt) == int(port)), "?")
+                if want is not None and got != want and not meta["cap"]:
+                    chk.monitor_fail("peer %d: attempt after %d consecutive failure(s) used address %s, rotation requires %s (addresses %s)" % (p, k, got, want, addrs[p]),
+                                     dict(case=sc[:2500], tick=i, dials=str(per_tick)[:600]))
+                    ok_case = False
+                if p in last_dial and k > 0:
+                    earliest = last_dial[p] * P + min(maxb, k * stepb)
+                    if i * P < earliest:
+                        chk.monitor_fail("peer %d: attempt at t=%d ms although its %d-th consecutive failure (attempt at %d ms) requires waiting at least min(%d, %d*%d) ms" % (p, i * P, k, last_dial[p] * P, maxb, k, stepb),
+                                         dict(case=sc[:2500], tick=i, dials=str(per_tick)[:600]))
+                        ok_case = False
+                last_dial[p] = i
+                # outcome by the script: the attempt succeeds iff it went to the peer's own address while the peer is up
+                if got == str(p) and is_up(p, i * P):
+                    fails[p] = 0
+                else:
+                    fails[p] = k + 1
         if not ok_case:
             continue
         chk.nontriv(sc)
